@@ -18,6 +18,9 @@ from common import *          # noqa
 import ref_frost as F
 import ref_ed
 import c19
+import groups
+
+STRUCT = {}
 
 
 def hx(b):
@@ -276,6 +279,27 @@ def protocol_run(rng, S, t, n, exhaustive_subset=None, big_idents=None):
             dec = getattr(S, "dec_" + ty)(v2)
             lines.append(T + "dec %s %s" % (ty, hx(v2))); exp.append("OK N" if dec is None else None)
             cl.add("wire-roundtrip")
+            # an embedded point replaced by a valid group element with a structured coordinate (0 / p plus or minus one limb unit):
+            # the decoder's neutral / subgroup / canonicity tests run on exactly the values where a lost carry shows
+            NS, NE = S.NS, S.NE
+            offs = {"group_pk": [0], "share": [2 * NS], "signer_pk": [NS], "vss_list": list(range(0, len(val), NE)), "commitment": [NS, NS + NE],
+                    "commitment_list": [k_ + o for k_ in range(0, len(val), NS + 2 * NE) for o in (NS, NS + NE)], "signature": [0]}.get(ty, [])
+            sp = STRUCT.get(name)
+            if sp is None:
+                g_ = groups.GROUPS[{"ed25519": "ed25519", "ed448": "ed448", "ristretto255": "ristretto255", "p256": "p256", "secp256k1": "secp256k1"}[name]]
+                sp = []
+                for P_ in g_.structured_points():
+                    e_ = g_.C.encode_compressed(P_) if isinstance(g_, groups.WeierG) else bytes.fromhex(g_.enc(P_))
+                    if len(e_) == NE:
+                        sp.append(e_)
+                STRUCT[name] = sp
+            if offs and sp:
+                off = rng.choice(offs)
+                v4 = val[:off] + rng.choice(sp) + val[off + NE:]
+                dec = getattr(S, "dec_" + ty)(v4)
+                lines.append(T + "dec %s %s" % (ty, hx(v4))); exp.append("OK N" if dec is None else "OK S " + v4.hex())
+                cl.add("structured-point:" + ("accepted" if dec is not None else "rejected"))
+                cl.add(name + ":structured-point:" + ("accepted" if dec is not None else "rejected"))
             v3 = c19.altform(rng, name, ty, val)
             if v3 is not None:
                 # one embedded point re-encoded in another valid SEC1 format: not the wire format, must be refused
@@ -412,7 +436,7 @@ def main(argv):
     rep.assumptions = ["ref_frost (RFC 9591 appendix E vectors for all suites, repository KATs)", "min_signers < 2 and max_signers > 65535 are outside the documented domain"]
     try:
         if a.tier == "quick":
-            cfgs = (a.configs.split(",") if a.configs else ["default", "w32"])
+            cfgs = (a.configs.split(",") if a.configs else ["default", "w32", "m51"])
             runs, exh = int(24 * a.scale), 4
         else:
             cfgs = (a.configs.split(",") if a.configs else ["default", "m51", "w32", "zz32", "avx2"])
@@ -425,6 +449,7 @@ def main(argv):
         req += ["honest-run", "duplicate-commitment", "corrupt-sig-share", "corrupt-commitment", "corrupt-signature", "corrupt-share-secret", "corrupt-vss",
                 "share-wrong-signer", "share-ident-altered", "other-message", "wire-roundtrip", "rfc8032-interop", "signer-not-in-list", "other-group-key", "identifiers>255", "point-in-other-valid-format", "sign:own-entry-hiding-replaced", "sign:own-entry-binding-replaced",
                 "sign:own-entry-both-replaced", "sign:other-entry-hiding-replaced"]
+        req += [s + ":structured-point:accepted" for s in F.SUITES]
         rep.require(*req)
     except Inconclusive as e:
         rep.incon.append(str(e))
